@@ -1,5 +1,7 @@
 import ThriftVerif.Lib.PegLemmas
 import ThriftVerif.Lib.WalkerLemmas
+import ThriftVerif.Lib.PegTree
+import ThriftVerif.Lib.WalkerSafe
 import ThriftVerif.Generated.C03Grammar
 /-
   C03 — the parser is total and the AST is faithful to the source text.  Property theorems only
@@ -30,6 +32,34 @@ theorem peg_total (g : Grammar) (nul : List Bool) (rank : List Nat) (h : wf g nu
 /-- `p.Parse()` of the regenerated grammar terminates on every byte string. -/
 theorem parse_total (content : Bytes) : parseRunes G (Utf8.decode content) ≠ .oof :=
   peg_total G _ _ grammar_wf _
+
+/-! ## the tree handed to the walker, and the walker on it -/
+
+/-- The capture-at-start table is closed and says the start rule cannot begin with a capture. -/
+theorem grammar_captures : capOK G Generated.C03.nul Generated.C03.capTab = true := by decide
+
+/-- Every tree the matcher can return for the regenerated grammar, pruned as `tokens32.AST()` does, is a tree of the
+grammar read as a tree grammar: a node per non-empty rule call / capture in grammar order, a node for every call of a
+rule that cannot match the empty string, each node's children described by its rule's body over the node's own span
+(`Peg.Kids`). -/
+theorem tree_conforms (rs : List Nat) (p' : Nat) (s' : List Nat) (t : T) (h : parseRunes G rs = .ok p' s' t) :
+    Kids G Generated.C03.nul (.call 0) 0 p' (prune t) :=
+  run_kids (wf_unpack grammar_wf).nulSound _ _ _ _ _ _ _ h
+
+/-- … every node is non-empty and lies inside the input, and no `<…>` node begins at offset 0 (`pegText` reads
+`buffer[begin-1]`). -/
+theorem tree_in_bounds (rs : List Nat) (p' : Nat) (s' : List Nat) (t : T) (h : parseRunes G rs = .ok p' s' t) :
+    Safe G.pegText rs.length (prune t) :=
+  parse_safe (wf_unpack grammar_wf) (capOK_unpack grammar_captures) rs p' s' t h
+
+/-- `parser.ParseString` (model: decode, match, prune, walk) ends with a parse error, a walker error or an AST on
+EVERY byte string: no `node.next` / `node.up` / `node.pegRule` is taken of a nil pointer, no buffer index is out of range,
+no recursion runs out of fuel.  Proved for all rules: each walker function is shown panic-free on every node whose
+children conform to its rule (`Lib/WalkerSafe.lean`), and `tree_conforms` / `tree_in_bounds` say all nodes do. -/
+theorem walker_no_panic (content : Bytes) :
+    C03.parseString G ids content = .parseError ∨ C03.parseString G ids content = .walkError ∨
+    ∃ t, C03.parseString G ids content = .ok t :=
+  C03.parseString_safe grammar_wf grammar_captures content
 
 /-! ## numbering -/
 
